@@ -62,6 +62,27 @@ def run(ctx):
     ok = len(pushes) == 1 and M.render(pv.of_operand(pushes[0][1]["args"][1])) == "std::sync::Arc::new(<T as std::borrow::ToOwned>::to_owned(inputs.memory))" \
         and f.cfg().dominates(pushes[0][0], cb)
     ctx.ob("R3", "parent-memory-snapshot-pushed-before-fork", ok, f.loc(pushes[0][0]) if pushes else f.loc(0), "pushes: %s" % [M.render(pv.of_operand(t["args"][1])) for _, t in pushes], f)
+    # R2: the parent fails for exactly five reasons (no other rejecting path, e.g. a spurious pre-check)
+    tab = M.return_table(prog, f)
+    kinds = []
+    for bb_, v, at in tab:
+        last = at[-1] if at else ""
+        if v == "<propagate error>" and re.match(r"^err\(essential_vm::stack::Stack::pop\(inputs\.stack\)\)$", last):
+            kinds.append("breadth-word-missing")
+        elif v.startswith("Result::Err{") and "ComputeError::InvalidBreadth{" in v and re.match(r"^Lt\(essential_vm::stack::Stack::pop\(inputs\.stack\)\?, 1\)$", last):
+            kinds.append("breadth<1")
+        elif v.startswith("Result::Err{") and "ComputeError::DepthReached{" in v and re.match(r"^Le\(essential_vm::compute::MAX_COMPUTE_DEPTH, Vec::len\(inputs\.parent_memory\)\)$", last):
+            kinds.append("depth-reached")
+        elif v == "<propagate error>" and re.match(r"^err\(std::iter::Iterator::collect\(", last):
+            kinds.append("child-error")
+        elif v == "<propagate error>" and re.match(r"^err\(essential_vm::compute::compute_effects\(", last):
+            kinds.append("join-error")
+        elif v.startswith("Result::Ok{"):
+            kinds.append("ok")
+        else:
+            kinds.append("OTHER:%s under %s" % (v[:60], last[:80]))
+    ctx.ob("R2", "parent-fails-for-exactly:missing-breadth,breadth<1,depth,child-error,join-error", sorted(kinds) == sorted(["breadth-word-missing", "breadth<1", "depth-reached", "child-error", "join-error", "ok"]),
+           f.loc(0), "returns of compute: %s" % kinds, f)
     # R5
     pops = [(bb, t) for bb, t in f.calls() if M.callee_of(t).startswith("essential_vm::stack::Stack::") and M.render(M.peel(pv.of_operand(t["args"][0]))) == "inputs.stack"]
     ctx.ob("R5", "parent-stack-popped-once", [M.callee_of(t).split("::")[-1] for _, t in pops] == ["pop"], f.loc(0), "calls on the parent's stack: %s" % [M.callee_of(t).split("::")[-1] for _, t in pops], f)
